@@ -1,7 +1,7 @@
 from vlib.flow import Prop
 from vlib import core
 from .common import BASE_TRUST
-from . import gen, trees, dec
+from . import gen, trees, dec, acc3
 from .C07 import SER_TRUST
 
 
@@ -9,10 +9,16 @@ class C03(Prop):
     id = 'C03'
     also_release = True
     module = 'Cbor.Props.C03'
-    theorems = ['Props.C03.C03_bytes', 'Props.C03.C03_deterministic', 'Props.C03.int_width', 'Props.C03.shortest_heads', 'Props.C03.head_shortest',
+    extra_modules = ['Cbor.Props.LeafSerializers']      # the leaf cases of Model.serialize as theorems about GENERATED code (lean/Cbor/Gen/Serializers.lean)
+    theorems = ['Props.LeafSerializers.' + t for t in acc3.SER_THEOREMS] + ['Props.C03.C03_bytes', 'Props.C03.C03_deterministic', 'Props.C03.int_width', 'Props.C03.shortest_heads', 'Props.C03.head_shortest',
                 'Props.C03.indefinite_shape', 'Props.C03.members_in_order', 'Props.C03.nan_canonical', 'Lemmas.Ser.ser_item',
                 'Props.C03.C03_decode_encode', 'Props.C03.C03_roundtrip', 'Spec.RT.decode_encode', 'Lemmas.RoundTrip.encode_renorm']
     trusted_base = BASE_TRUST + SER_TRUST + [
+        'Props.LeafSerializers: cbor_serialize_uint / _negint / _float_ctrl, the definite branch of cbor_serialize_bytestring / _string and the leaf cases of '
+        'cbor_serialized_size are GENERATED (Gen/Serializers.lean) and proved equal to the hand model on every represented leaf; assumed: the output buffer does not overlap '
+        'the item or its payload (value semantics; overlapping memcpy would be UB anyway), memcpy = C.copyBytes (lean/Cbor/PreludeMem.lean), item->data == NULL is not '
+        'distinguished from an empty payload; the string serializers / cbor_serialized_size are translated under stated assumptions (definite; not ARRAY / MAP / TAG) that '
+        'are conjuncts of the generated .ok; compared with the compiled functions on real constructor-built items by the ACC lines of every run',
         'round trip: a theorem (Spec.RT.decode_encode, lifted through load_eq: C03_roundtrip) for canonical trees below 2^56 encoded bytes with the non-refusing allocator '
         'oracle; additionally evaluated by the specification driver on every tree of the corpus, and the implementation and the model are compared on serialize -> load -> serialize (ROUND)']
     rule = ('trees: every leaf kind x boundary value (0,23,24,255,256,65535,65536,2^32-1,2^32,2^64-1), empty and multi-chunk indefinite strings, '
@@ -35,6 +41,7 @@ class C03(Prop):
         # the list-based load model is quadratic in the members of one container: big trees go through the Spec oracle (and C07's SER) only
         lines = ['ROUND ' + trees.fmt(t) for t in self.trees(tier, rng) if len(trees.enc(t)) <= 4096]
         lines += ['LOAD ' + gen.hexs(b) + ' 0 0 %d' % dec.HUGE for b in self.load_inputs(tier, rng)]
+        lines += acc3.ser_lines(tier, core.Rng('C03-acc'))          # generated leaf serializers vs the compiled ones (ACC)
         return lines
 
     def nontrivial(self, line, out):
@@ -86,10 +93,16 @@ class C03(Prop):
             got = got or '-'
             if got != exp:
                 fails.append({'input': l, 'expected': exp[:400], 'observed': o[:400], 'why': 'serialization of the decoded tree differs from the encoding the tree determines'})
+        fails += acc3.oracle(ctx, tier)          # the type-specific leaf serializers on constructor-built items vs the RFC 8949 bytes (Python)
         return fails[:20]
 
     def replay(self, ctx, rp):
         l = rp['failure']['input']
+        if l.startswith('ACC '):
+            out, rc, _ = ctx.run_c([l])
+            if rc != 0 or not out: return [dict(rp['failure'], observed='implementation aborted')]
+            e = acc3.ser_expect(l)
+            return [dict(rp['failure'], observed=out[0][:400])] if e is not None and out[0] != e else []
         if l.startswith('LOAD'):
             out, rc, _ = ctx.run_c([l])
             if rc != 0: return [dict(rp['failure'], observed='implementation aborted')]
